@@ -40,9 +40,9 @@ var stubCommon = []string{"job scheduling and loop barriers (controller)", "wall
 
 var checks = map[string]checkCfg{
 	"C05": {Engine: "bsim", Engine2: "mgrsim", QuickS: 25, ThoroughS: 900, Level: "exploration",
-		Rule:   "one case = one seeded capture (1-12 TCP/UDP v4/v6 conversations with known ground truth, path faults: segmentation, bounded reordering, retransmission, interleaving; 1-6 capture files cut at seeded packet positions; seeded chronological import batching; seeded snapshot interval). distinct = distinct hash of (conversation shapes, cuts, batching); non-trivial = more than one capture file or a conversation spanning files",
-		Real:   []string{"builder.FromPcap", "gopacket reassembly", "udpreassembly", "libpcap (cgo) reading real pcap/pcapng files", "index writer/reader"},
-		Stub:   []string{"network path and capture tap (netsim)", "wall clock", "map order"},
+		Rule:   "one case = one seeded capture (1-12 TCP/UDP v4/v6 conversations with known ground truth, path faults: segmentation, bounded reordering, retransmission, interleaving; 1-6 capture files cut at seeded packet positions; seeded chronological import batching; seeded snapshot interval). distinct = distinct hash of (conversation shapes, cuts, batching); non-trivial = more than one capture file or a conversation spanning files. Every third worker runs the mgrsim engine instead: the same kind of traffic is imported through the real service under a seeded schedule (merges, failing merges and imports, disk full, empty and garbage uploads, clean restarts) and every view is compared with a one-shot import of the captures reported processed",
+		Real:   []string{"builder.FromPcap", "gopacket reassembly", "udpreassembly", "libpcap (cgo) reading real pcap/pcapng files", "index writer/reader", "second engine: the whole manager (as in C10)"},
+		Stub:   []string{"network path and capture tap (netsim)", "wall clock", "map order", "second engine: job scheduling, clock, map order (controller)"},
 		Assume: []string{"netsim ground truth is what the endpoints exchanged", "well-formed traffic only: no capture loss, no conflicting overlaps, no IP fragments, handshake-complete TCP"}},
 	"C08": {Engine: "bsim", QuickS: 25, ThoroughS: 900, Level: "exploration",
 		Rule:   "one case = one seeded capture set and 2-5 import histories (partition into batches x arrival order chronological/reversed/shuffled x importer restarts x snapshot files kept or dropped x snapshot interval 5..200 packets or shipped 100000), each compared with a one-shot import up to stream numbering, plus id stability after every batch. distinct = distinct hash of (capture shape, histories); non-trivial = more than one file or a conversation spanning files",
@@ -54,11 +54,11 @@ var checks = map[string]checkCfg{
 		Real: realCommon, Stub: stubCommon,
 		Assume: []string{"one quiescent index.SearchStreams evaluation of a definition is the reference (C02/C04 are not claimed)", "converter-reading definitions are not judged while a converter job is between body and completion"}},
 	"C07": {Engine: "mgrsim", Engine2: "bsim", QuickS: 40, ThoroughS: 1200, Level: "exploration",
-		Rule: "one case = one seeded plan and schedule; at every applied merge completion the visible state (all streams with metadata, payload, packet references, shown tags) and a battery of ~20 searches is taken through fresh views immediately before and after and must be identical; at the end every suffix of the final stack is merged with index.Merge in a scratch directory and compared. distinct = distinct schedule signature; non-trivial = at least one merge was applied",
+		Rule: "one case = one seeded plan and schedule; at every applied merge completion the visible state (all streams with metadata, payload, packet references, shown tags) and a battery of ~20 searches is taken through fresh views immediately before and after and must be identical; views held across a merge must answer as before; every third worker (bsim) stacks independent imports in a seeded order, merges every suffix with index.Merge, merges the result again and compares visible streams and a search battery that includes time-bound searches with bounds taken from the streams. distinct = distinct schedule signature; non-trivial = at least one merge was applied",
 		Real: realCommon, Stub: stubCommon,
 		Assume: []string{"searches in the battery use total sort orders (unique first-packet times by construction, id as last key)"}},
 	"C09": {Engine: "mgrsim", QuickS: 40, ThoroughS: 1200, Level: "exploration",
-		Rule: "one case = one seeded plan and schedule including slow jobs and converter transient failures; after the last API call the controller keeps choosing enabled background steps until none is enabled; violation = a step that never returns (watchdog 30 s), more than 200+40(T+1)(F+C+1) drain steps, or no step enabled while queue/flags/uncertain/to-convert are non-empty. distinct = distinct schedule signature; non-trivial = overlap of jobs and API calls",
+		Rule: "one case = one seeded plan and schedule including slow jobs, converter failures (exit, protocol violation), corrupt/empty uploads, create errors and disk full during import/merge bodies; after the last API call the controller keeps choosing enabled background steps until none is enabled; violation = a step that never returns (watchdog 30 s), more than 200+40(T+1)(F+C+1) drain steps, or no step enabled while queue/flags/uncertain/to-convert are non-empty. distinct = distinct schedule signature; non-trivial = overlap of jobs and API calls",
 		Real: realCommon, Stub: stubCommon,
 		Assume: []string{"watchdog 30 s real time is far above the slowest step (<1 s)"}},
 	"C10": {Engine: "mgrsim", QuickS: 40, ThoroughS: 1200, Level: "exploration",
@@ -70,7 +70,7 @@ var checks = map[string]checkCfg{
 		Real: realCommon, Stub: stubCommon,
 		Assume: []string{"which of {applied, rejected} happens is only prescribed where the property names it"}},
 	"C12": {Engine: "mgrsim", Engine2: "cachesim", QuickS: 50, ThoroughS: 1500, Level: "fault_enumeration",
-		Rule: "one case = one crash state: during a seeded run the data directory is copied at every I/O point (file create/write/flush/close/remove in manager, builder, index writer, snapshots, cache file) at which the tree changed, plus torn tails of the file being written; each distinct tree is restarted with manager.New, drained and compared with the model as of the snapshot instant (acknowledged tags/settings/endpoints, streams of applied imports under old ids with reference content, converged tags). Clean Close+New restarts are the fault-free configuration. distinct = distinct tree hash restarted",
+		Rule: "one case = one crash state: during a seeded run the data directory is copied at every I/O point (file create/write/flush/close/remove in manager, builder, index writer, snapshots, cache file) at which the tree changed, plus torn tails of the file being written; each distinct tree is restarted with manager.New, drained and compared with the model as of the snapshot instant (acknowledged tags/settings/endpoints, streams of applied imports under old ids with reference content, converged tags). Clean Close+New restarts are the fault-free configuration. An API call acknowledged while the disk is full must survive a kill taken right after it. After a restart every connection of a one-shot import of the completed captures must be visible and the referenced-by relation of tags must be as before. Every third worker (cachesim) records a converter cache file at every I/O point of store/invalidate/reset/reopen (also inside compaction, torn in-place writes), restarts every state, judges it and continues it with further operations and another restart. distinct = distinct tree hash restarted",
 		Real: realCommon, Stub: stubCommon,
 		Assume: []string{"crash = process kill: the directory contents at that instant are the durable state (the code does not fsync)"}},
 	"C13": {Engine: "mgrsim", QuickS: 40, ThoroughS: 1200, Level: "exploration",
@@ -78,7 +78,7 @@ var checks = map[string]checkCfg{
 		Real: realCommon, Stub: stubCommon,
 		Assume: []string{"what jobs hold is internal: equalities only when no job exists"}},
 	"C15": {Engine: "cachesim", QuickS: 25, ThoroughS: 900, Level: "fault_enumeration",
-		Rule:   "one case = one seeded operation history on the real cache file (store with arbitrary chunk lists, invalidate, reset, reopen, compaction at seeded and shipped thresholds) compared with a map model after every operation; after every store the file is copied and truncated at every byte offset of the appended record and must open and serve all complete records. distinct = distinct (history hash) ; crash states counted separately",
+		Rule:   "one case = one seeded operation history on the real cache file (store with arbitrary chunk lists, invalidate, reset, reopen, compaction at seeded and shipped thresholds) compared with a map model after every operation; after a store the file is copied and truncated at every byte offset of the structured parts of the appended record (sampled inside long payload bodies) and must open and serve all complete records; in two thirds of the runs the file is recorded at every I/O point of every operation, every state that is a truncation of an append is restarted, judged and continued with three more operations and another reopen; a third of the runs make one store fail with a full disk. distinct = distinct (history hash) ; crash states counted separately",
 		Real:   []string{"converters.cacheFile (all of it)"},
 		Stub:   []string{"compaction threshold knob", "no converter process (records are generated)"},
 		Assume: []string{"zero-length chunks carry no data and may vanish"}},
@@ -87,12 +87,12 @@ var checks = map[string]checkCfg{
 		Real: realCommon, Stub: stubCommon,
 		Assume: []string{"the harness converter prints a digest of its whole input"}},
 	"C19": {Engine: "httpsim", QuickS: 30, ThoroughS: 600, Level: "exploration",
-		Rule:   "one case = 2-3 concurrent uploads (same and different names) with bodies delivered chunk by chunk in a seeded interleaving, client aborts, downloads, and request paths from a path grammar; the tree outside the capture directory must be byte-identical, existing names keep their bytes, at most one upload per name succeeds, imports queued == 200 responses. distinct = distinct interleaving signature",
-		Real:   []string{"cmd/pkappa2 setupRouter (chi routes, handlers)", "manager (pass-through hooks)"},
-		Stub:   []string{"HTTP transport (in-process ServeHTTP, gated request bodies)"},
+		Rule:   "one case = 2-3 concurrent uploads (same and different names) with bodies delivered chunk by chunk in a seeded interleaving, client aborts, downloads, and request paths from a path grammar; the tree outside the capture directory must be byte-identical, existing names keep their bytes, at most one upload per name succeeds, imports queued == 200 responses (a stored upload that is no capture is queued once and not listed). Handlers yield at their file operations; the service's import/merge jobs park at gates and background steps are part of the schedule. distinct = distinct interleaving signature",
+		Real:   []string{"cmd/pkappa2 setupRouter (chi routes, handlers)", "manager, builder, index (simulation mode: jobs under gates)"},
+		Stub:   []string{"HTTP transport (in-process ServeHTTP, gated request bodies)", "job scheduling, clock, map order"},
 		Assume: []string{"input-space coverage of path encodings is not claimed"}},
 	"C20": {Engine: "mgrsim", Race: true, QuickS: 60, ThoroughS: 1200, Level: "exploration",
-		Rule: "one case = one seeded plan and schedule executed under the Go race detector with a happens-before-transparent control plane (raw-syscall pipes), 4 converter processes, an event listener and ticker steps; any DATA RACE report with a repository frame is a violation, signature = the pair of racing functions. distinct = distinct schedule signature",
+		Rule: "one case = one seeded plan and schedule executed under the Go race detector with a happens-before-transparent control plane (raw-syscall pipes), 4 converter processes, an event listener and ticker steps; any DATA RACE report with a repository frame is a violation, signature = the pair of racing functions. Two run indices in seven also feed packets to the PCAP-over-IP packet handler (socket and libpcap reader replaced; handler, capture writer and queued import real, outside the schedule). distinct = distinct schedule signature",
 		Real: realCommon, Stub: stubCommon,
 		Assume: []string{"the Go race detector; raw read/write system calls create no happens-before edges (probed)"}},
 }
